@@ -1,7 +1,9 @@
 import CoupeModel.Model.Random
 import CoupeModel.Proofs.Random
 import CoupeModel.Props.C03
+import CoupeModel.Props.C09
 import CoupeModel.Props.C10
+import CoupeModel.Props.C11
 import CoupeModel.Props.C12
 import CoupeModel.Props.C13
 
@@ -27,10 +29,14 @@ do not read the pool size; where the code does (`Grid::rcb`,
 `rayon::current_num_threads()`), `T` is a model parameter and the theorems are
 for all `T`.
 
-Wired so far: Ckk, Greedy, KarmarkarKarp, Grid 2-D/3-D, Random, Rcb and Rib
-(ids and "no panic"; termination of the `f32` cut search is the owner's stated
-assumption, see `Rcb.total_statement`).  To come: HilbertCurve, ZCurve (C09),
-MultiJagged (C11).
+All twelve partitioners are covered: Ckk (C13), Greedy and KarmarkarKarp (C12),
+Grid 2-D/3-D (C10), Rcb and Rib (C03), HilbertCurve 2-D/3-D and ZCurve (C09),
+MultiJagged (C11), Random (own model).  Totality is partial in exactly two
+places, as with the owners: Rcb/Rib (termination of the `f32` cut search is
+C03's stated assumption: `Rcb.total_statement` / `Rcb.total_partial`) and
+HilbertCurve (the settle loop of `weighted_quantiles` has no termination proof:
+`Hilbert.total_statement`, shown equivalent to C09's
+`quantiles_terminates_statement`, and `Hilbert.total_partial`).
 -/
 
 namespace Coupe.C01
@@ -287,6 +293,191 @@ theorem ids_lt {β : Type} {S : α → Prop} (laws : OrderLawsOn S) (rotate : β
 
 end Rib
 
+/-! ## HilbertCurve, 2-D and 3-D (model `Coupe.Sfc.Hilbert`, theorems of C09)
+
+Both dimensions run the same `partition_indexed`; the dimension only decides
+which encoder produced the curve indices `idxs` (C08), and the theorems hold for
+EVERY index list.  `run` is `partition_indexed` after the indices are known:
+`weighted_quantiles` (settle loop with fuel, then the final sort) and the
+binary-search lookup; `none` = the settle loop ran out of fuel. -/
+
+namespace Hilbert
+open Coupe.Sfc
+
+/-- `hilbert_curve.rs: partition_indexed` on the curve indices `idxs` (composition of the
+two functions of C09's model, nothing new). -/
+def run (fuel : Nat) (idxs : List Nat) (ws : List Float) (parts : Nat) : Option (List Nat) :=
+  (Sfc.Hilbert.quantiles fuel idxs ws parts).map (Sfc.Hilbert.assign idxs)
+
+/-- The same thing in the form C09's driver evaluates it. -/
+theorem run_eq (fuel : Nat) (idxs : List Nat) (ws : List Float) (parts : Nat) :
+    run fuel idxs ws parts =
+      (Sfc.Hilbert.quantilesRaw fuel idxs ws parts).map (Sfc.Hilbert.partitionIndexed idxs) := by
+  simp only [run, Sfc.Hilbert.quantiles, Option.map_map]
+  rfl
+
+theorem length_ok (fuel : Nat) (idxs : List Nat) (ws : List Float) (parts : Nat) (ids : List Nat)
+    (h : run fuel idxs ws parts = some ids) : ids.length = idxs.length := by
+  simp only [run, Option.map_eq_some_iff] at h
+  obtain ⟨pos, _, rfl⟩ := h
+  simp [Sfc.Hilbert.assign]
+
+/-- Every id is below `part_count`, whatever positions the settle loop found. -/
+theorem ids_lt (fuel : Nat) (idxs : List Nat) (ws : List Float) (parts : Nat) (hn : 1 ≤ parts)
+    (ids : List Nat) (h : run fuel idxs ws parts = some ids) : ∀ i ∈ ids, i < parts := by
+  simp only [run, Option.map_eq_some_iff] at h
+  obtain ⟨pos, hpos, rfl⟩ := h
+  exact (quantiles_result_sorted fuel idxs ws parts hn pos hpos).2.2.2
+
+/-- The full totality statement: on a non-empty input with at least one part some fuel
+suffices (`HilbertCurve::partition` returns early on the empty input). -/
+def total_statement : Prop :=
+  ∀ (idxs : List Nat) (ws : List Float) (parts : Nat), idxs ≠ [] → 1 ≤ parts →
+    ∃ fuel ids, run fuel idxs ws parts = some ids
+
+/-- It is exactly the termination of the settle loop, which C09 does not claim (no
+decreasing measure is known; watchdog and fuel were never hit in the runs). -/
+theorem total_statement_iff : total_statement ↔ quantiles_terminates_statement := by
+  constructor
+  · intro h idxs ws n hne hn
+    obtain ⟨fuel, ids, hr⟩ := h idxs ws n hne hn
+    refine ⟨fuel, ?_⟩
+    simp only [run, Option.map_eq_some_iff] at hr
+    obtain ⟨pos, hpos, _⟩ := hr
+    simp [hpos]
+  · intro h idxs ws n hne hn
+    obtain ⟨fuel, hf⟩ := h idxs ws n hne hn
+    obtain ⟨pos, hpos⟩ := Option.isSome_iff_exists.mp hf
+    exact ⟨fuel, Sfc.Hilbert.assign idxs pos, by simp [run, hpos]⟩
+
+/-- What is proved of it: the settle loop is the ONLY way not to return – once it ends,
+the sort and the lookups reach no panic site (the binary-search index never exceeds the
+length) and ids are returned. -/
+theorem total_partial (fuel : Nat) (idxs : List Nat) (ws : List Float) (parts : Nat)
+    (h : (Sfc.Hilbert.quantilesRaw fuel idxs ws parts).isSome) :
+    ∃ ids, run fuel idxs ws parts = some ids := by
+  obtain ⟨raw, hraw⟩ := Option.isSome_iff_exists.mp h
+  exact ⟨Sfc.Hilbert.partitionIndexed idxs raw, by rw [run_eq, hraw]; rfl⟩
+
+end Hilbert
+
+/-! ## ZCurve, 2-D and 3-D (model `Coupe.Sfc.ZCurve.partition`, theorems of C09)
+
+`sortBy` stands for `par_sort_unstable_by_key` (any sort meeting `SortSpec`), `region` for
+the floating-point quadrant test (any function with values below `2^D`), `p0` is the
+caller's array.  Contract: `part_count ≥ 1`, `order ≤ max_order`. -/
+
+namespace ZCurve
+open Coupe.Sfc Coupe.Sfc.ZCurve
+
+theorem total (dim order k n : Nat) (hk : 1 ≤ k) (hord : order ≤ maxOrder dim)
+    (sortBy : (Nat → Nat) → List Nat → List Nat) (hs : SortSpec sortBy)
+    (region : List Nat → Nat → Nat) (hreg : ∀ path i, region path i < 2 ^ dim)
+    (p0 : List Nat) (hp0 : p0.length = n) :
+    ∃ ids, partition dim order k sortBy region n p0 = .ok ids := by
+  obtain ⟨_, ids, _, _, _, hr, _⟩ := zcurve_parts_runs dim order k n hk hord sortBy hs region hreg p0 hp0
+  exact ⟨ids, hr⟩
+
+theorem length_ok (dim order k n : Nat) (hk : 1 ≤ k) (hord : order ≤ maxOrder dim)
+    (sortBy : (Nat → Nat) → List Nat → List Nat) (hs : SortSpec sortBy)
+    (region : List Nat → Nat → Nat) (hreg : ∀ path i, region path i < 2 ^ dim)
+    (p0 : List Nat) (hp0 : p0.length = n) (ids : List Nat)
+    (h : partition dim order k sortBy region n p0 = .ok ids) : ids.length = n := by
+  obtain ⟨_, ids', _, _, _, hr, hl, _⟩ :=
+    zcurve_parts_runs dim order k n hk hord sortBy hs region hreg p0 hp0
+  rw [h] at hr
+  cases hr
+  exact hl
+
+/-- Every id is below `part_count` – also with more parts than points (defect D3). -/
+theorem ids_lt (dim order k n : Nat) (hk : 1 ≤ k) (hord : order ≤ maxOrder dim)
+    (sortBy : (Nat → Nat) → List Nat → List Nat) (hs : SortSpec sortBy)
+    (region : List Nat → Nat → Nat) (hreg : ∀ path i, region path i < 2 ^ dim)
+    (p0 : List Nat) (hp0 : p0.length = n) (ids : List Nat)
+    (h : partition dim order k sortBy region n p0 = .ok ids) : ∀ i ∈ ids, i < k := by
+  obtain ⟨_, ids', _, _, _, hr, hl, _, _, hlt⟩ :=
+    zcurve_parts_runs dim order k n hk hord sortBy hs region hreg p0 hp0
+  rw [h] at hr
+  cases hr
+  intro x hx
+  obtain ⟨j, hj, rfl⟩ := List.mem_iff_getElem.mp hx
+  have := hlt j (by omega)
+  simpa [List.getD_eq_getElem?_getD, List.getElem?_eq_getElem hj] using this
+
+/-- Non-vacuity: D3's shape (3 points, 5 parts) with the driver's sort. -/
+example : SortSpec sortByKey := sortByKey_spec
+example : partition 2 1 5 sortByKey (fun _ i => i % 4) 3 [9, 9, 9] = .ok [0, 1, 2] := by decide
+
+end ZCurve
+
+/-! ## MultiJagged (model `Coupe.MultiJagged.run` + `assign`, theorems of C11)
+
+Parameters and the owner's hypotheses on them: `root` (`f32` `powf(..).ceil()`, `RootOk`),
+`sort` (`axis_sort`, `SortOk`), `chunk` (block lengths of the parallel scan, `ChunkOk`);
+`ren` is the renaming of the leaf numbers the `fetch_add` order induces (any map of
+`[0, part_count)` into itself).  Contract: `part_count ≥ 1`, `max_iter ≥ 1`, one weight
+per point.  Weights exact (`Nat`). -/
+
+namespace MultiJagged
+open Coupe.MultiJagged
+
+/-- `MultiJagged::partition`: the ids written into the caller's array `p0`; `none` = abort. -/
+def ids (root : Nat → Nat → Nat) (sort : (Nat → Int) → List Nat → List Nat) (chunk : Nat → List Nat)
+    (dim : Nat) (key : Nat → Nat → Int) (ws : List Nat) (n numParts maxIter : Nat)
+    (ren : Nat → Nat) (p0 : List Nat) : Option (List Nat) :=
+  (run {} root sort chunk dim key ws n numParts maxIter).map (fun h => assign ren h.leaves p0)
+
+section
+variable {root : Nat → Nat → Nat} {sort : (Nat → Int) → List Nat → List Nat} {chunk : Nat → List Nat}
+
+/-- No abort: no remainder by zero or underflow in the scheme, no `unwrap` of an exhausted
+scan (K4), no `split_at_mut_many` panic, `next.unwrap()` always `Some`. -/
+theorem total (hr : RootOk root) (hs : SortOk sort) (hc : ChunkOk chunk)
+    (dim : Nat) (key : Nat → Nat → Int) (ws : List Nat) (n numParts maxIter : Nat)
+    (hn : 1 ≤ numParts) (hm : 1 ≤ maxIter) (hws : n ≤ ws.length) (ren : Nat → Nat) (p0 : List Nat) :
+    ∃ out, ids root sort chunk dim key ws n numParts maxIter ren p0 = some out := by
+  obtain ⟨h, hrun, _⟩ := mj_ids hr hs hc dim key ws n numParts maxIter hn hm hws
+  exact ⟨assign ren h.leaves p0, by simp [ids, hrun]⟩
+
+theorem length_ok (hr : RootOk root) (hs : SortOk sort) (hc : ChunkOk chunk)
+    (dim : Nat) (key : Nat → Nat → Int) (ws : List Nat) (n numParts maxIter : Nat)
+    (hn : 1 ≤ numParts) (hm : 1 ≤ maxIter) (hws : n ≤ ws.length) (ren : Nat → Nat) (p0 : List Nat)
+    (hp0 : p0.length = n) (out : List Nat)
+    (h : ids root sort chunk dim key ws n numParts maxIter ren p0 = some out) : out.length = n := by
+  obtain ⟨hh, hrun, _, _, _, hall⟩ := mj_ids hr hs hc dim key ws n numParts maxIter hn hm hws
+  simp only [ids, hrun, Option.map_some, Option.some.injEq] at h
+  subst h
+  exact (hall ren p0 hp0).1
+
+/-- Every element is written (its cell holds the id of the leaf containing it) and every
+id is below `part_count`. -/
+theorem ids_lt (hr : RootOk root) (hs : SortOk sort) (hc : ChunkOk chunk)
+    (dim : Nat) (key : Nat → Nat → Int) (ws : List Nat) (n numParts maxIter : Nat)
+    (hn : 1 ≤ numParts) (hm : 1 ≤ maxIter) (hws : n ≤ ws.length) (ren : Nat → Nat)
+    (hren : ∀ k, k < numParts → ren k < numParts) (p0 : List Nat)
+    (hp0 : p0.length = n) (out : List Nat)
+    (h : ids root sort chunk dim key ws n numParts maxIter ren p0 = some out) :
+    ∀ i ∈ out, i < numParts := by
+  obtain ⟨hh, hrun, hleaves, _, _, hall⟩ := mj_ids hr hs hc dim key ws n numParts maxIter hn hm hws
+  simp only [ids, hrun, Option.map_some, Option.some.injEq] at h
+  subst h
+  obtain ⟨hl, hw⟩ := hall ren p0 hp0
+  intro x hx
+  obtain ⟨j, hj, rfl⟩ := List.mem_iff_getElem.mp hx
+  obtain ⟨k, hk, _, hget⟩ := hw j (by omega)
+  rw [List.getElem?_eq_getElem hj] at hget
+  rw [Option.some.inj hget]
+  exact hren k (by omega)
+
+end
+
+/-- Non-vacuity: the K4 input (heavy first element, 4 parts, 2 iterations) with the driver's
+instances; the first two leaves are empty. -/
+example : ids iroot isort (fun n => [n]) 2 k4key [10, 1, 1, 1] 4 4 2 id [9, 9, 9, 9]
+    = some [3, 2, 2, 2] := by decide
+
+end MultiJagged
+
 /-! ## Random (model `Coupe.Random.run`; the generator is a parameter)
 
 `Lawful g` is the trusted contract of `rand`: `gen_range(0..k)` returns a value
@@ -350,6 +541,17 @@ end Coupe.C01
 #print axioms Coupe.C01.Rcb.total_partial
 #print axioms Coupe.C01.Rib.length_ok
 #print axioms Coupe.C01.Rib.ids_lt
+#print axioms Coupe.C01.Hilbert.run_eq
+#print axioms Coupe.C01.Hilbert.length_ok
+#print axioms Coupe.C01.Hilbert.ids_lt
+#print axioms Coupe.C01.Hilbert.total_statement_iff
+#print axioms Coupe.C01.Hilbert.total_partial
+#print axioms Coupe.C01.ZCurve.total
+#print axioms Coupe.C01.ZCurve.length_ok
+#print axioms Coupe.C01.ZCurve.ids_lt
+#print axioms Coupe.C01.MultiJagged.total
+#print axioms Coupe.C01.MultiJagged.length_ok
+#print axioms Coupe.C01.MultiJagged.ids_lt
 #print axioms Coupe.C01.Random.length_ok
 #print axioms Coupe.C01.Random.ids_lt
 #print axioms Coupe.C01.Random.total
